@@ -2,5 +2,11 @@ PKG = "./transports/obfs2"
 SPEC = {"level": "exploration", "units": [
   {"name": "obfs2-bytes", "pkg": PKG, "kind": "rapid", "run": "^TestVerifC10Obfs2Bytes$",
    "quick": {"checks": 300, "shards": 2, "timeout": 300}, "thorough": {"checks": 2000, "shards": 8, "timeout": 1500}},
+  {"name": "obfs2-cuts", "pkg": PKG, "kind": "plain", "run": "^TestVerifC10Obfs2Cuts$",
+   "quick": {"shards": 2, "timeout": 300}, "thorough": {"shards": 4, "timeout": 1500}},
+  {"name": "obfs2-fuzz-client", "pkg": PKG, "kind": "fuzz", "fuzz": "FuzzVerifC10Obfs2Client",
+   "quick": {"timeout": 300}, "thorough": {"fuzztime": "30s", "timeout": 400, "workers": 6}},
+  {"name": "obfs2-fuzz-server", "pkg": PKG, "kind": "fuzz", "fuzz": "FuzzVerifC10Obfs2Server",
+   "quick": {"timeout": 300}, "thorough": {"fuzztime": "30s", "timeout": 400, "workers": 6}},
 ]}
 TEXT = {"technique": "private test unit", "engine": "x", "level_text": "x", "level_note": "x"}
